@@ -29,7 +29,12 @@ Clause → theorem
   data / fit descriptions of the wrong dimension, without method, unknown fit method, unknown
   weights keyword, unknown reference keyword and too few intervals while fitting
                                                 fit_ok_iff_wellformed, fit_first_error_position
-  malformed HDC limits / deltas                 grid_ok_iff_wellformed, grid_first_error_position
+  data of the wrong dimension, over the SHAPE of np.array(data): scalar, flat sequence (of n_rows or
+  of exactly n_dim values), last axis ≠ n_dim     checkData_ok_iff, checkData_error
+  malformed HDC limits / deltas (lengths, tuple lengths, entries that are not finite numbers,
+  zero / negative / NaN steps)                  grid_ok_iff_wellformed (for n_dim ≥ 1), grid_first_error_position
+  NaN in the HDC density table (anchored raise sites; not in the property's list: correspondence only)
+                                                density_ok_iff_wellformed
   unknown slicer options, reference keywords, too few intervals
                                                 slicer_ok_iff_wellformed, slicer_too_few_iff
   non-finite evaluation points                  points_ok_iff_wellformed, points_error_kind
@@ -43,6 +48,21 @@ and min_n_intervals by `slice_` (first use) before any interval is returned; gri
 by the HighestDensityContour constructor before any density is evaluated.  A weights keyword is
 only looked at by least-squares fitting (documented: "ignored otherwise"), so `MethodOK` does not
 constrain it for 'mle'.
+
+What the model deliberately says about the code as it is (not more):
+  * `Check.firstConditional` (the `RuntimeError` at the end of `GlobalHierarchicalModel.__init__`) is DEAD
+    since the hierarchy check of `_check_dist_descriptions` (fix 61af94e): `phase3_after_phase1` proves that
+    after phase 1 `phase3` can only fail for an empty list (`emptyModel`, an `IndexError`), and
+    `first_error_position` has no `firstConditional` disjunct.  Likewise the bare `raise TypeError()` in
+    `IFORMContour._compute` is unreachable behind the constructor's type-name test and is not modelled.
+  * "data of the wrong dimension" is read as the code reads it: the LAST axis of np.array(data) must have
+    n_dim entries (`DataOK`); the code has no test on the number of axes beyond "at least two", so an array
+    with ≥ 3 axes and the right last axis passes `checkData` (what the numerical fits then do is outside the
+    model; the harness only records it).
+  * limit tuples given as (max, min) are not a `LimTag`: the code sorts them (`min(...)`, `max(...)`) when
+    deltas are given and derives a negative default step otherwise; only recorded by the harness.
+  * `LimTag.nonFinite`, `DVal.zero/neg/nan` end inside numpy (`ErrKind.leaf`): only "does not return" is
+    modelled, neither the class nor the position of those rejections.
 -/
 import VirVerif.Model.Validate
 import VirVerif.Lemmas.Hier
